@@ -5,6 +5,7 @@ import (
 	"io"
 
 	erpc "github.com/henrylee2cn/erpc/v6"
+	"github.com/henrylee2cn/erpc/v6/xfer/gzip"
 	"github.com/henrylee2cn/erpc/v6/socket"
 )
 
@@ -99,4 +100,99 @@ func VX_C05_HTTPRoundTrip(args []int) {
 	vxAssert(pf(alone).Unpack(g3) == nil && g3.Size() == g2.Size(), "size reported for a received message depends on that message alone")
 	vxAssert(w.off == len(w.data), "both frames consumed exactly")
 	vxCover("c05.http.roundtrip")
+}
+
+func init() { vxRegister("VX_C02_HTTPErrorReply", VX_C02_HTTPErrorReply) }
+
+// VX_C02_HTTPErrorReply: over the HTTP-style protocol the peer answers a
+// pending call with a "299 Business Error" response whose payload is not a
+// well-formed status (truncated / arbitrary bytes): the call completes (with
+// an error) instead of hanging, exactly once, and the session ends up working
+// or cleanly disconnected. args: nSym (symbolic bytes at the start of the payload)
+func VX_C02_HTTPErrorReply(args []int) {
+	p := erpc.NewPeer(erpc.PeerConfig{})
+	conn := newVxConn("cli:1", "srv:2")
+	s, st := p.ServeConn(conn, NewHTTProtoFunc())
+	vxAssume(st.OK())
+	vxWaitIdle()
+	var res []byte
+	ch := make(chan erpc.CallCmd, 1)
+	cmd := s.AsyncCall("/a/b", []byte("q"), &res, ch)
+	vxAssert(conn.nWrites() == 1, "request written")
+	payload := append(vxBytes("p", args[0]), []byte(`{"code":"7","msg":`)...)
+	seq := cmd.Output().Seq()
+	hdr := "HTTP/1.1 299 Business Error\r\nContent-Type: application/json\r\nContent-Length: " + string(rune('0'+len(payload)/10)) + string(rune('0'+len(payload)%10)) +
+		"\r\nX-Mtype: 2\r\nX-Seq: " + string(rune('0'+seq)) + "\r\n\r\n"
+	conn.feed(append([]byte(hdr), payload...))
+	vxWaitIdle()
+	done := false
+	select {
+	case <-cmd.Done():
+		done = true
+	default:
+	}
+	vxAssert(done, "the call completes once its (malformed) reply has arrived, without any further event")
+	conn.end()
+	vxWaitIdle()
+	vxAssert(len(ch) == 1, "delivered exactly once")
+	if done {
+		vxAssert(!cmd.StatusOK(), "a reply that is not a well-formed status is not reported as OK")
+	}
+	vxAssert(vxBlockedThreads() == 0, "nobody left blocked")
+	vxCover("c02.http.error-reply")
+}
+
+func init() {
+	vxRegister("VX_C05_HTTPGzipStream", VX_C05_HTTPGzipStream)
+	gzip.Reg('g', "gzip", 5)
+}
+
+// VX_C05_HTTPGzipStream: three responses back to back over the HTTP-style
+// protocol - an OK reply through the gzip filter, an error reply through the
+// gzip filter, a plain OK reply - decode to the same frames, the stream stays
+// in sync (real compress/gzip interpreted; statuses concrete). args: nBody
+func VX_C05_HTTPGzipStream(args []int) {
+	vxStepBudget(60)
+	body := make([]byte, 0, args[0])
+	for len(body) < args[0] {
+		body = append(body, []byte("payload payload payload ")...)
+	}
+	body = body[:args[0]]
+	mk := func(seq int32, pipe bool, st *erpc.Status) socket.Message {
+		m := socket.NewMessage()
+		m.SetSeq(seq)
+		m.SetMtype(erpc.TypeReply)
+		m.SetBodyCodec('s')
+		m.SetBody(body)
+		if pipe {
+			m.XferPipe().Append('g')
+		}
+		if st != nil {
+			m.SetStatus(st)
+		}
+		return m
+	}
+	w := &vxHRW{}
+	pf := NewHTTProtoFunc()
+	pw, pr := pf(w), pf(w)
+	msgs := []socket.Message{mk(11, true, nil), mk(12, true, erpc.NewStatus(1429, "quota exceeded", "")), mk(13, false, nil)}
+	for _, m := range msgs {
+		vxAssume(pw.Pack(m) == nil)
+	}
+	for k := range msgs {
+		g := socket.NewMessage(socket.WithNewBody(func(socket.Header) interface{} { return new([]byte) }))
+		err := pr.Unpack(g)
+		vxAssert(err == nil, "response decodes")
+		vxAssert(g.Seq() == int32(11+k) && g.Mtype() == erpc.TypeReply, "seq and type round trip")
+		switch k {
+		case 0:
+			vxAssert(g.StatusOK() && bytes.Equal(*(g.Body().(*[]byte)), body) && g.XferPipe().Len() == 1, "OK reply through gzip round trips with its filter list")
+		case 1:
+			vxAssert(g.Status(true).Code() == 1429 && g.Status(true).Msg() == "quota exceeded", "[C04] error reply through gzip: status round trip")
+		case 2:
+			vxAssert(g.StatusOK() && bytes.Equal(*(g.Body().(*[]byte)), body) && g.XferPipe().Len() == 0, "the plain reply after them decodes: stream in sync")
+		}
+	}
+	vxAssert(w.off == len(w.data), "stream consumed exactly")
+	vxCover("c05.http.gzip-stream")
 }
